@@ -445,6 +445,42 @@ func checkC18(c *hx.Checker) {
 		mkOps(fmt.Sprintf("v13+custom%d", v), []*onnx.OperatorSetIdProto{{Domain: "", Version: 13}, {Domain: "com.example", Version: v}})
 	}
 	mkOps("no-import", nil)
+	// the same rule on graphs without nodes (weights only) and on an empty graph: the opset is a property of the file
+	for _, v := range versions {
+		for gi, g := range []*onnx.GraphProto{
+			{Name: "g", Initializer: []*onnx.TensorProto{hx.TensorProto("w", recFill(ref.F32, []int{2}, 3), "raw")}, Output: []*onnx.ValueInfoProto{hx.ValueInfoNoShape("w")}},
+			{Name: "g"},
+			{Name: "g", Input: []*onnx.ValueInfoProto{hx.ValueInfo("x", ref.F32, hx.FixedDims([]int{2}))}, Output: []*onnx.ValueInfoProto{hx.ValueInfoNoShape("x")}},
+		} {
+			mp := hx.Model(g, 13)
+			mp.OpsetImport = []*onnx.OperatorSetIdProto{{Domain: "", Version: v}}
+			expect := "opset-error"
+			if v == 13 {
+				expect = "load-ok"
+			}
+			b, _ := proto.Marshal(mp)
+			jobs = append(jobs, job{b, expect, fmt.Sprintf("opset/node-less-graph%d/v%d", gi, v), []string{"opset", "node-less", "expect=" + expect}})
+		}
+	}
+	// valid initializers of every rank up to 12 (unit axes around one real one), typed and raw
+	for rank := 0; rank <= 12; rank++ {
+		for pos := 0; pos < 3 && (pos == 0 || rank > 0); pos++ {
+			dims := make([]int, rank)
+			for i := range dims {
+				dims[i] = 1
+			}
+			if rank > 0 {
+				dims[[]int{rank - 1, 0, rank / 2}[pos]] = 3
+			}
+			for _, enc := range []string{"raw", "typed"} {
+				for _, dt := range []ref.DT{ref.F32, ref.I64} {
+					w := ref.Distinct(dt, dims)
+					g := &onnx.GraphProto{Name: "g", Initializer: []*onnx.TensorProto{hx.TensorProto("w", w, enc)}, Output: []*onnx.ValueInfoProto{hx.ValueInfoNoShape("w")}}
+					jobs = append(jobs, job{hx.Marshal(hx.Model(g, 13)), "load-ok", fmt.Sprintf("initializer-rank/%d/%v/%s/%s", rank, dims, enc, dt), []string{"initializer-rank", fmt.Sprintf("rank=%d", rank)}})
+				}
+			}
+		}
+	}
 	// operator types
 	reg := map[string]bool{}
 	for _, n := range opset13.GetOpNames() {
